@@ -246,7 +246,7 @@ known("KF-C03-03", "C03", W, None, r"malformed-output:(other|empty)", r"(json\.N
 known("KF-C03-04", "C03", "enc-reject", None, r"unrepresentable-accepted", r"json\.Number:number:.* @ feature:val:json\.Number",
       'json.Number("x") accepted', "see KF-C03-03", "see KF-C03-03", "see KF-C03-03")
 PASS_RX = r"(str:raw-ctl|nul-terminates|compact:str-any-escape)"
-known("KF-C03-05", "C03", W, None, r"malformed-output:passthrough", r"relax=" + PASS_RX + r"( \+ relax=" + PASS_RX + r")* @ feature:val:(bad-raw|marshaler-output)",
+known("KF-C03-05", "C03", W, None, r"malformed-output:passthrough", r"relax=" + PASS_RX + r" @ feature:val:(bad-raw|marshaler-output)",
       'MarshalJSON returning "a<LF>b" (raw control character) or "\\[" (any byte after a backslash) is copied to the output',
       "internal/encoder/compact.go compactString: lenient validation of strings in marshaler output (KF-C18-02..04); the number grammar part was repaired in 9277c67",
       "another ill-formed marshaler/RawMessage output that one of these three string/NUL leniences explains (anything else is reported as relax=unexplained)", "see KF-C18-02")
